@@ -998,6 +998,7 @@ STUB_FROM_ELEM = "#[kani::stub(alloc::vec::from_elem, crate::model::from_elem_fi
 
 STUBS_DECODE = [
     "#[kani::stub(<mqtt_proto_sync::Error as std::convert::From<std::io::Error>>::from, crate::model::from_io_eof_stub)]",
+    "#[kani::stub(<std::io::Error as std::string::ToString>::to_string, crate::model::io_to_string_stub)]",
     "#[kani::stub(simdutf8::basic::from_utf8, crate::model::from_utf8_class_stub)]",
     "#[kani::stub(mqtt_proto_sync::TopicName::is_invalid, crate::model::topic_name_class_stub)]",
     "#[kani::stub(mqtt_proto_sync::TopicFilter::is_invalid, crate::model::topic_filter_class_stub)]",
@@ -1012,6 +1013,7 @@ def stubs_for(bad):
         sel[bad[0]] = {"utf8": "from_utf8_bad_len3", "name": "topic_name_bad_len3", "filter": "topic_filter_bad_len3"}[bad[0]]
     return [
         "#[kani::stub(<mqtt_proto_sync::Error as std::convert::From<std::io::Error>>::from, crate::model::from_io_eof_stub)]",
+        "#[kani::stub(<std::io::Error as std::string::ToString>::to_string, crate::model::io_to_string_stub)]",
         "#[kani::stub(simdutf8::basic::from_utf8, crate::model::%s)]" % sel["utf8"],
         "#[kani::stub(mqtt_proto_sync::TopicName::is_invalid, crate::model::%s)]" % sel["name"],
         "#[kani::stub(mqtt_proto_sync::TopicFilter::is_invalid, crate::model::%s)]" % sel["filter"],
@@ -1430,6 +1432,7 @@ def emit_reenc(sh, prop="C11"):
 
 STUBS_FAULT = [
     "#[kani::stub(<mqtt_proto_sync::Error as std::convert::From<std::io::Error>>::from, crate::model::from_io_kind_stub)]",
+    "#[kani::stub(<std::io::Error as std::string::ToString>::to_string, crate::model::io_to_string_stub)]",
     "#[kani::stub(simdutf8::basic::from_utf8, crate::model::from_utf8_class_stub)]",
     "#[kani::stub(mqtt_proto_sync::TopicName::is_invalid, crate::model::topic_name_class_stub)]",
     "#[kani::stub(mqtt_proto_sync::TopicFilter::is_invalid, crate::model::topic_filter_class_stub)]",
